@@ -26,6 +26,14 @@ impl GenerationPass for NodeDirectionPass {
                 jump_to_node.insert_prev(Rc::clone(&node));
             }
 
+            // A call is no edge, but the function it names needs a first instruction just as
+            // much (a label at the end of a file, or one that names data)
+            if let Some(label) = node.calls_to() {
+                if !cfg.label_node_map.contains_key(&label.to_string()) {
+                    return Err(Box::new(CfgError::LabelWithoutInstruction(label)));
+                }
+            }
+
             // Linearly scan for nexts and prevs
             if let Some(prev) = prev {
                 node.insert_prev(Rc::clone(&prev));
